@@ -795,12 +795,25 @@ func Run(cfg hx.Config) (*hx.Meta, error) {
 		shapes []*shape
 	}
 	var pkgs []*pkg
-	for i := 0; i < len(shapes); i += perPkg {
-		j := i + perPkg
-		if j > len(shapes) {
-			j = len(shapes)
+	// variadic signatures are outside the property, and goderive refuses them since 80a8213/7af0c3a (a
+	// refusal stops the whole package): each gets a package of its own, where a refusal is accepted
+	var plain, variadic []*shape
+	for _, s := range shapes {
+		if s.variadic {
+			variadic = append(variadic, s)
+		} else {
+			plain = append(plain, s)
 		}
-		pkgs = append(pkgs, &pkg{dir: filepath.Join(cfg.Work, fmt.Sprintf("c15pkg%d", len(pkgs))), shapes: shapes[i:j]})
+	}
+	for i := 0; i < len(plain); i += perPkg {
+		j := i + perPkg
+		if j > len(plain) {
+			j = len(plain)
+		}
+		pkgs = append(pkgs, &pkg{dir: filepath.Join(cfg.Work, fmt.Sprintf("c15pkg%d", len(pkgs))), shapes: plain[i:j]})
+	}
+	for _, s := range variadic {
+		pkgs = append(pkgs, &pkg{dir: filepath.Join(cfg.Work, fmt.Sprintf("c15pkg%d", len(pkgs))), shapes: []*shape{s}})
 	}
 	meta.Packages = len(pkgs)
 
@@ -830,6 +843,10 @@ func Run(cfg hx.Config) (*hx.Meta, error) {
 		}
 		g := hx.Goderive(cfg.Goderive, p.dir, ".")
 		meta.GoderiveRuns++
+		if g.Exit != 0 && len(p.shapes) == 1 && p.shapes[0].variadic && !g.TimedOut && !strings.Contains(g.Out, "panic:") {
+			meta.Count("variadic-refused (outside the property)")
+			continue
+		}
 		if g.Exit != 0 {
 			meta.AddDirect(hx.Direct{Class: "c15-generate-failed", What: "goderive failed on a package of curry/uncurry/flip/apply/tuple calls",
 				Files: files, Cmd: "goderive .", Output: hx.Truncate(g.Out, 4000)})
